@@ -432,7 +432,31 @@ def r11(ctx):
     ctx.floor(R, 2)
 
 
+def r12(ctx):
+    R = "C06-R12"
+    ctx.rule(R, "the last ACK of a close handshake can be lost or late like any other packet: the side that reached Closed first must go on "
+                "answering the peer's (retransmitted) FIN for a while (TIME-WAIT). In handle_on_connection the arm for TcpState::Closed "
+                "must therefore reach an emission (re-ACK) for a FIN - today it ignores every segment, and once the handle is dropped the "
+                "entry is reaped and a late segment is answered with a RST that clears the peer's receive buffer")
+    hc = ctx.body(R, "turmoil_net::kernel::tcp::handle_on_connection")
+    if not hc:
+        return
+    ok = False
+    for sbb, m, els, adt, pl in variant_edges(hc, lambda p: True):
+        if adt == "turmoil_net::kernel::socket::TcpState" and "Closed" in m:
+            e = m["Closed"]
+            for x in hc.reachable(e[1]):
+                t = hc.term(x)
+                if hc.dominated_by_edge(x, e) and t["k"] == "call" and re.search(r"tcp::(emit|handle_established)$", t["f"]):
+                    ok = True
+    ctx.inst(R, "closed:re-acks-fin", ok, hc.span, "a closed connection still acknowledges the peer's FIN" if ok else
+             "there is no TIME-WAIT: the Closed arm ignores the peer's retransmitted FIN (the peer exhausts its budget: TimedOut), and once the handle is dropped a late segment "
+             "gets a RST that wipes the peer's unread bytes - one dropped, or merely late, last ACK turns a clean half-close with a slow reader into ConnectionReset / TimedOut")
+    ctx.floor(R, 1)
+
+
 def run(ctx):
+    r12(ctx)
     r11(ctx)
     r10(ctx)
     r9(ctx)
